@@ -684,5 +684,5 @@ func runC18(tier string) int {
 		"configurations are a covering set, not the full matrix: every option value appears in at least one configuration",
 		"an error must be a parser.ParseError with 1 <= start line <= end line <= number of lines (counting the empty line after a final newline)")
 	return r.Finish(r.Get("evaluations"), r.Get("nontrivial"),
-		"(a) every sequence of <= L tokens from a 57-lexeme alphabet after each of 29 context prefixes, with 3 suffixes; (b) every single deviation (truncation, deletion, replacement or insertion by every alphabet token) of 12 seed programs that use every production (thorough: pairs of deviations on the small seeds); (c) every sequence of <= S well-formed statement templates (25 templates, shared with C01); (d) every sequence of <= D constant definitions over three names whose values mention each other, followed by a program using them at every use site; (e) every integer from 0 to 70000 (thorough 2^20), decimal and hex, at every position that interprets a number; (e') every scaled program (templates repeated K times, blocks nested K deep, switches with K cases); (f) every string of <= N characters over 23 characters incl. multi-byte letters, a 3-byte non-letter, U+FFFD, NUL, quote, backtick, CR, bare and inside 'script S { x('; each input under a covering set of configurations (optimize, line markers/path, switches, font file/default font, command configs incl. argument positions -1 and 3 and one whose keys are the identifier-like literals of the compiler's source and its keywords, normal and lint); evaluations = input x configuration runs; non-trivial = the input is rejected (an error path is taken)")
+		"(a) every sequence of <= L tokens from a 57-lexeme alphabet after each of 29 context prefixes, with 3 suffixes; (b) every single deviation (truncation, deletion, replacement or insertion by every alphabet token) of 12 seed programs that use every production (thorough: pairs of deviations on the small seeds); (c) every sequence of <= S well-formed statement templates (27 templates, shared with C01); (d) every sequence of <= D constant definitions over three names whose values mention each other, followed by a program using them at every use site; (e) every integer from 0 to 70000 (thorough 2^20), decimal and hex, at every position that interprets a number; (e') every scaled program (templates repeated K times, blocks nested K deep, switches with K cases); (f) every string of <= N characters over 23 characters incl. multi-byte letters, a 3-byte non-letter, U+FFFD, NUL, quote, backtick, CR, bare and inside 'script S { x('; each input under a covering set of configurations (optimize, line markers/path, switches, font file/default font, command configs incl. argument positions -1 and 3 and one whose keys are the identifier-like literals of the compiler's source and its keywords, normal and lint); evaluations = input x configuration runs; non-trivial = the input is rejected (an error path is taken)")
 }
